@@ -7,20 +7,24 @@
      modelled on integer-valued components small enough for the sums to be exact
      (|x| <= 2^20, <= 70 components): the sums are computed in Z, the remaining f64
      operations with Coq.Floats.SpecFloat at prec 53 / emax 1024;
-   * keys are compared by Value::compare_for_sort = compare(..).unwrap_or(Equal): a Null
-     key (and a NaN) compares Equal to EVERYTHING -- not a total preorder;
+   * keys are compared by Value::compare_for_sort (as of commit 34f5e9d): Null = Null,
+     Null < every non-Null value, otherwise compare(..).unwrap_or(Equal) -- so a NaN key still
+     compares Equal to every float (not transitive; NaN cannot arise from the integer-valued
+     tables of the correspondence).  Before 34f5e9d a Null key compared Equal to EVERYTHING
+     (finding F-C24-1, fixed);
    * no LIMIT: DynamicExecutor::Sort = `rows.sort_by(cmp)`, a stable sort.  For a
-     comparison that is a total preorder every stable sort returns the same list; for the
-     inconsistent comparison above the result depends on the algorithm: Rust's slice::sort_by
+     comparison that is a total preorder every stable sort returns the same list; for an
+     inconsistent comparison (NaN keys) the result depends on the algorithm: Rust's slice::sort_by
      is an insertion sort (insert_tail: shift the new element left while it is_less than
      its predecessor) for slices of at most 20 elements.  [isort] is that insertion sort;
-     it is the model of sort_by when the keys are all comparable or the slice has <= 20
+     it is the model of sort_by when no key is NaN or the slice has <= 20
      elements ([sort_modelled]);
    * LIMIT k: DynamicExecutor::TopK keeps a binary max-heap of k rows in a Vec: the first k
      rows are pushed, then sorted in DESCENDING order (a descending array is a max-heap);
-     every later row that compares Less than heap[0] replaces it and is sifted down;
-     at the end the heap is sorted ascending and the first k rows are returned.
-     `heap[0]` on an empty Vec (LIMIT 0 with at least one input row) panics. *)
+     every later row -- when k > 0 (the guard `else if heap_size > 0` of commit fec49c7;
+     before it LIMIT 0 indexed heap[0] of an empty Vec and panicked, finding F-C24-2, fixed) --
+     that compares Less than heap[0] replaces it and is sifted down;
+     at the end the heap is sorted ascending and the first k rows are returned. *)
 From Coq Require Import ZArith List Bool Arith Floats.SpecFloat.
 Import ListNotations.
 
@@ -90,9 +94,9 @@ Section Order.
           let h1 := h ++ [x] in
           let h2 := if (length h1 =? k)%nat then isort c_greater h1 else h1 in
           topk_feed k h2 rest
-        else
+        else if (0 <? k)%nat then                         (* else if heap_size > 0 *)
           match h with
-          | [] => TPanic                                   (* state.heap[0] on an empty Vec *)
+          | [] => TPanic                                   (* state.heap[0] on an empty Vec: unreachable, length h >= k > 0 *)
           | b :: _ =>
               if c_less x b then
                 match sift (S (length h)) (upd h 0 x) 0 with
@@ -101,6 +105,7 @@ Section Order.
                 end
               else topk_feed k h rest
           end
+        else topk_feed k h rest                            (* LIMIT 0: the row is dropped *)
     end.
 
   Definition topk (k : nat) (rows : list A) : topk_res :=
@@ -152,12 +157,15 @@ Definition cos_key (v q : list Z) : skey :=
 (* Value::compare_for_sort on two keys *)
 Definition key_cmp (a b : skey) : comparison :=
   match a, b with
+  | SNull, SNull => Eq
+  | SNull, SF _ => Lt
+  | SF _, SNull => Gt
   | SF x, SF y => match SFcompare x y with Some c => c | None => Eq end
-  | _, _ => Eq
   end.
 
+(* every key except a NaN distance is ordered consistently (Null included: it is the least) *)
 Definition key_comparable (k : skey) : bool :=
-  match k with SF S754_nan => false | SF _ => true | SNull => false end.
+  match k with SF S754_nan => false | SF _ => true | SNull => true end.
 
 (* ------------------------------------------------------------------ the two executors *)
 Definition row := (Z * skey)%type.                 (* id, sort key *)
